@@ -66,12 +66,12 @@ def run(tier: str, seed: int) -> int:
     steps = STATE_STEPS + list(VM_STEPS) + ["noop"]
     chains = [[s] for s in steps]
     if q:
-        chains += [["check", "get"], ["boot", "shutdown"], ["noop", "set"], ["get", "boot", "set"], ["unset", "pop"], ["push", "pop"]]
+        chains += [["check", "get"], ["boot", "shutdown"], ["noop", "set"], ["get", "boot", "set"], ["unset", "pop"], ["push", "pop"], ["check", "check"], ["get", "boot", "get"]]
     else:
-        chains += [list(c) for c in itertools.product(steps, repeat=2)]
+        chains += [list(c) for c in itertools.product(["check", "get", "unset", "pop", "boot", "shutdown", "noop"], repeat=2)]
         chains += [["get", "boot", "set"], ["check", "shutdown", "get"], ["noop", "set", "unset"], ["boot", "get", "shutdown"], ["push", "pop", "check"]]
-    vmsels = [["vm1"], ["vm1", "vm2"]] if q else [["vm1"], ["vm2"], ["vm1", "vm2"], ["vm1", "vm2", "vm3"]]
-    netsels = [["net1"], ["net1", "net2"], ["net5", "net1"], ["net1", "net3"]] if q else [["net1"], ["net1", "net2"], ["net1", "net3"], ["net5", "net1"], ["net1", "net5", "net2"], ["net3", "net5"]]
+    vmsels = [["vm1"], ["vm1", "vm2"]] if q else [["vm1"], ["vm1", "vm2"], ["vm1", "vm2", "vm3"]]
+    netsels = [["net1"], ["net1", "net2"], ["net5", "net1"], ["net1", "net3"]] if q else [["net1"], ["net1", "net2"], ["net5", "net1"], ["net1", "net5", "net2"], ["net3", "net5"]]
     cases = []
     for ch in chains:
         for vms in vmsels:
@@ -88,7 +88,7 @@ def run(tier: str, seed: int) -> int:
         if r0["exc"]:
             continue
         outs = [i for i, k in enumerate(r0["kinds"]) if k == "OUT"]
-        lim = 3 if q else 8
+        lim = 3 if q else 5
         for i in outs[:lim]:
             extra.append(dict(r0["case"], prefix=r0["choices"][:i] + [1]))
     results += list(common.pmap(analyse, extra))
